@@ -140,30 +140,41 @@ def configSubsystem (numThreads : Nat) (mode : Mode) (all : List (MForce M)) : C
 structure SubState where
   /-- `calcForcesExecutor->getMaxThreads()` -/
   execThreads : Nat
-  /-- `calcForcesTask` is a `CalcForcesParallelTask` (thread-local accumulators) rather than a
-  `CalcForcesNonParallelTask` (accumulators are MEMBERS of the one task object: "not thread-safe") -/
-  taskParallel : Bool
+  /-- `calcForcesTask`: `none` before the first `realizeTopology`; `some true` = `CalcForcesParallelTask`
+  (thread-local accumulators); `some false` = `CalcForcesNonParallelTask` (accumulators are MEMBERS of the one task
+  object: "not thread-safe") -/
+  task : Option Bool
 deriving DecidableEq, Repr
 
 inductive SubOp
-  /-- `setNumberOfThreads(n)`: `calcForcesExecutor = new ParallelExecutor(n)` — does not invalidate the topology
-  cache and does not look at the task class -/
+  /-- `setNumberOfThreads(n)` -/
   | setNumberOfThreads (n : Nat)
   /-- `realizeSubsystemTopologyImpl` for a subsystem that has / has no parallel force: chooses the task class and,
   for the non-parallel task, replaces the executor by `ParallelExecutor(1)` -/
   | realizeTopology (hasParallel : Bool)
 deriving DecidableEq, Repr
 
+/-- the CURRENT code (after /repo commit e709610d): `setNumberOfThreads` keeps one thread once the non-parallel
+task has been chosen (`dynamic_cast<const CalcForcesNonParallelTask*>(calcForcesTask.get())`); it does not invalidate
+the topology cache -/
 def SubState.apply (s : SubState) : SubOp → SubState
+  | .setNumberOfThreads n => { s with execThreads := if s.task = some false then 1 else n }
+  | .realizeTopology hp => { execThreads := if hp then s.execThreads else 1, task := some hp }
+
+/-- HISTORICAL: the transition before e709610d — `setNumberOfThreads` replaced the executor unconditionally -/
+def SubState.applyOld (s : SubState) : SubOp → SubState
   | .setNumberOfThreads n => { s with execThreads := n }
-  | .realizeTopology hp => { execThreads := if hp then s.execThreads else 1, taskParallel := hp }
+  | .realizeTopology hp => { execThreads := if hp then s.execThreads else 1, task := some hp }
 
 /-- constructor: `new ParallelExecutor()` (processor count), no task yet -/
-def SubState.init (ncpu : Nat) : SubState := ⟨ncpu, false⟩
+def SubState.init (ncpu : Nat) : SubState := ⟨ncpu, none⟩
 
 /-- the combination the code relies on: the non-parallel task is only ever run by a single thread.  This is the
 validity condition of the transition-system model below (thread-local accumulators). -/
-def ThreadSafe (s : SubState) : Bool := s.taskParallel || decide (s.execThreads < 2)
+def ThreadSafe (s : SubState) : Bool := !(s.task == some false) || decide (s.execThreads < 2)
+
+/-- the task in use is the parallel one -/
+def SubState.taskParallel (s : SubState) : Bool := s.task == some true
 
 /-- one `realizeSubsystemDynamicsImpl` in subsystem state `st` -/
 def configOfState (st : SubState) (mode : Mode) (all : List (MForce M)) : Config M :=
